@@ -161,10 +161,12 @@ def generate(family, rng, tier, wb_err=False, up_pipelined=False, lite_pipelined
         scn["slave"] = slave_cfg(rng)
     elif family == "ahb2wb":
         ops = []
+        p["dw"] = rng.choice([32, 32, 64])
+        nb, top = p["dw"] // 8, (p["dw"] // 8).bit_length() - 1
         for j in range(n):
-            size = rng.choice([2, 2, 1, 0])
-            a = (0x20 + rng.randrange(8)) * 4 + (rng.randrange(4 >> size) << size)
-            ops.append({"write": int(rng.random() < 0.5), "addr": a, "size": size, "data": rng.getrandbits(32), "gap": rng.choice([0, 0, 1, 3])})
+            size = rng.choice([top, top, 2, 1, 0])
+            a = (0x20 + rng.randrange(8)) * nb + (rng.randrange(nb >> size) << size)
+            ops.append({"write": int(rng.random() < 0.5), "addr": a, "size": size, "data": rng.getrandbits(p["dw"]), "gap": rng.choice([0, 0, 1, 3])})
         scn["ops"] = ops
         scn["lat"] = [rng.choice([1, 1, 2, 5]) for _ in range(8)]
         p["addressing"] = rng.choice(["word", "byte"])
